@@ -20,7 +20,8 @@ type regEntry struct {
 	Handlers []string // resolved names: "s3api/middlewares.IsAdmin" (factory call), "(s3api/controllers.AdminController).CreateUser" (method value), "<closure>"
 	Callee   string   // for init: the router method called
 	Pos      token.Pos
-	Cond     string // enclosing if-condition text ("" if unconditional)
+	Cond     string      // enclosing if-condition text ("" if unconditional)
+	Closures []token.Pos // positions of the function literals among the handlers
 }
 
 const fiberApp = "*github.com/gofiber/fiber/v2.App"
@@ -91,9 +92,18 @@ func routeTable(p *Program) []regEntry {
 							}
 							for _, a := range x.Args[1:] {
 								e.Handlers = append(e.Handlers, handlerRef(pk.TypesInfo, a))
+								if fl, ok := ast.Unparen(a).(*ast.FuncLit); ok {
+									e.Closures = append(e.Closures, fl.Pos())
+								}
 							}
 							out = append(out, e)
 						}
+						return true
+					}
+					// a helper of this package that may register on the app it finds in a receiver field
+					// (server.useMiddlewares(...)): expanded in place if it turns out to hold registrations
+					if callee.Pkg() == pk.Types {
+						out = append(out, regEntry{Fn: fname, Kind: "init", Callee: objName(callee), Pos: x.Pos(), Cond: cond})
 						return true
 					}
 					// router.Init(app, ...): a call passing a *fiber.App on
@@ -149,14 +159,19 @@ func handlerRef(info *types.Info, e ast.Expr) string {
 
 // flatten: the effective registration sequence of a server constructor, with
 // router Init calls expanded in place.
-func flattenRoutes(tab []regEntry, fn string) []regEntry {
+func flattenRoutes(tab []regEntry, fn string) []regEntry { return flattenRoutesD(tab, fn, 0) }
+
+func flattenRoutesD(tab []regEntry, fn string, depth int) []regEntry {
 	var out []regEntry
+	if depth > 6 {
+		return out
+	}
 	for _, e := range tab {
 		if e.Fn != fn {
 			continue
 		}
 		if e.Kind == "init" {
-			sub := flattenRoutes(tab, e.Callee)
+			sub := flattenRoutesD(tab, e.Callee, depth+1)
 			for _, s := range sub {
 				if e.Cond != "" {
 					if s.Cond != "" {
